@@ -237,6 +237,7 @@ class Ref:
         self.scripts = {}  # ("cond", cid) / ("body", qual) / ("cap", sid) / ("err", cid) -> [ops]
         self.body_specs = {}
         self.tokn = {}
+        self.cur_async = False
 
     # ---- plumbing ----------------------------------------------------------
     def ev(self, e):
@@ -304,6 +305,9 @@ class Ref:
         missing = [a for a in args if a not in env]
         if missing:
             raise Outcome(("typeerror", tuple(missing)))
+        if d.get("flavor") in ("corofunc", "ret_coro") and not self.cur_async:
+            # C13: a coroutine condition on a sync callable is rejected, never taken as truthy
+            raise Outcome(("valueerror",))
         if reeval:
             # optional: the re-evaluator may skip the call (e.g. when an argument is None)
             self.ev((role, d["cid"], {a: env[a] for a in args}, "opt"))
@@ -319,6 +323,15 @@ class Ref:
         if fkey in self.S:
             return body()
         self.S.add(fkey)
+        saved_async = self.cur_async
+        self.cur_async = bool(eff["func"].get("async"))
+        try:
+            return self._checked_call(eff, fkey, qual, env, body)
+        finally:
+            self.cur_async = saved_async
+            self.S.discard(fkey)
+
+    def _checked_call(self, eff, fkey, qual, env, body):
         try:
             # preconditions: groups are alternatives, conditions in a group conjoined
             err = None
@@ -343,6 +356,8 @@ class Ref:
                 old = {}
                 for s in eff["snaps"]:
                     missing = [a for a in s.get("args", []) if a not in env]
+                    if s.get("flavor") in ("corofunc", "ret_coro") and not self.cur_async:
+                        raise Outcome(("valueerror",))
                     if missing:
                         raise Outcome(("typeerror", tuple(missing)))
                     self.ev(("cap", s["sid"], {a: env[a] for a in s.get("args", [])}))
@@ -351,9 +366,11 @@ class Ref:
                 env2["OLD"] = old
             if not self.hold_marker_during_body:
                 self.S.discard(fkey)
+            inner_async = self.cur_async
             try:
                 res = body()
             finally:
+                self.cur_async = inner_async
                 self.S.add(fkey)
             if eff["post"]:
                 env2["result"] = res
@@ -362,7 +379,7 @@ class Ref:
                         self.violation("post", d, env2)
             return res
         finally:
-            self.S.discard(fkey)
+            pass
 
     def body(self, qual, f, env):
         spec = self.body_specs.get(qual, f.get("body") or {"ret": "obj"})
